@@ -77,7 +77,7 @@ pub fn prop() -> Prop<Hist> {
         rule: "Cases are histories over set/get/del/reopen (a third of them also contain merges, under arbitrary thresholds) (deletes of present and absent keys, re-sets after delete, many files because max_file_size is drawn small) ending in 1-4 consecutive reopen cycles, run against the real store and a BTreeMap model; after every reopen all pool keys are read and the reopened index key set is compared with the model. Non-trivial: a reopen that follows a delete of a present key or an overwrite whose two versions sit in different data files; distinct = distinct hash of the whole case.",
         assumptions: &["clean close (drop of the store object) before every reopen; crashes are C03's subject"],
         needs_shim: false,
-        budget: |t| t.pick(16000, 400000),
+        budget: |t| t.pick(64000, 400000),
         shards: |_| 16,
         strategy,
         exec,
